@@ -33,6 +33,11 @@ SEEDS = [
 ]
 
 
+SEEDS_FLAG = [
+    "u = 0\nv = 0\nx = 1\ny = 1\nwhile true:\n    u = Normal(0, 1)\n    v = Normal(0, 2)\n    x, y = x/2 + u*y, y/2 + v*x\nend\n",
+]
+
+
 def rule(tier):
     return ("programs (seeds with cyclic / irrational / complex systems, categorical and conditioned-draw programs, + a slice of the "
             "grammar) x option combinations; non-trivial = (program, configuration) that succeeds with a non-constant expected sequence")
@@ -94,7 +99,7 @@ def with_declared_types(text):
 
 def cases(tier, seed):
     seed_set = set(SEEDS) | set(gen.SEEDS)
-    progs = list(SEEDS)
+    progs = list(SEEDS) + list(SEEDS_FLAG)
     base = [t for t in base_programs(tier) if "p" not in re.findall(r"[a-z]+", t)]
     step = 3 if tier == "quick" else 1
     progs += [t for i, t in enumerate(base) if i % step == 0 or t in seed_set]
@@ -130,6 +135,60 @@ def cases(tier, seed):
     return out
 
 
+def _central_flag_check(text, goals, N, cfg, res):
+    import sympy
+    from fractions import Fraction
+    from .. import polar
+    from ..pool import cpu_limit, CpuTimeout, tainted
+    from ..poly import parse_poly, Poly
+    from cli.actions.goals_action import GoalsAction
+    from inputparser import GoalParser
+    from recurrences import RecBuilder
+
+    if tainted():
+        return
+    singles = [g for g in goals if parse_poly(g).degree() == 1][:2]
+    if not singles:
+        return
+    model = build_model(text)
+    model.run(N)
+    polar.reset_settings(**cfg["settings"])
+    try:
+        with cpu_limit(40):
+            program = polar.normalize(polar.parse(text))
+            args = polar.cli_defaults()
+            ga = GoalsAction(args)
+            ga.initialize_program(program, RecBuilder(program))
+            for g in singles:
+                gt, gd = GoalParser.parse("c2(%s)" % g)
+                sol, exact = ga.handle_central_moment_goal(gd)
+                res["stats"]["central_flag_checks"] = res["stats"].get("central_flag_checks", 0) + 1
+                if not exact:
+                    continue
+                sol = sympy.sympify(sol)
+                if any(str(sy).startswith("_prob") for sy in sol.free_symbols):
+                    continue  # expressed through the probability of an abstracted condition: judged by C01 / C02
+                gp = parse_poly(g)
+                for n in range(N + 1):
+                    m1 = model.moment(gp, n)
+                    m2 = model.moment(gp * gp, n)
+                    if not (m1.is_const() and m2.is_const()):
+                        break
+                    want = m2.const_value() - m1.const_value() ** 2
+                    verdict, how, txt = polar.compare_value(polar.at_n(sol, n), Poly.const(want), digits=25)
+                    if verdict == "neq":
+                        res["violations"].append({"sub": "c2(%s) flagged exact" % g, "detail": {
+                            "program": text, "settings": cfg["settings"], "n": n, "true": str(want), "reported": txt[:80],
+                            "problem": "a central moment computed under a numeric root option deviates from the exact value but is "
+                                       "reported as exact"}})
+                        res["status"] = "violation"
+                        break
+    except CpuTimeout:
+        pass
+    finally:
+        polar.reset_settings()
+
+
 def run_case(case):
     inp = case["input"]
     cfg = inp["config"]
@@ -141,6 +200,13 @@ def run_case(case):
         text = t2
     res = analyse_program_goals(text, inp["goals"], case["N"], settings=cfg["settings"], force_cyclic=cfg["force_cyclic"],
                                 rounded_tol=cfg.get("tol", 1e-5))
+    # goals built from several raw moments (central moments) under the numeric root options: a value that is flagged exact
+    # must be exact - the flag has to account for EVERY raw moment that went into it
+    if (cfg["settings"].get("numeric_roots") or cfg["settings"].get("numeric_croots")) and res.get("status") in ("ok", "violation"):
+        try:
+            _central_flag_check(text, inp["goals"], case["N"], cfg, res)
+        except Exception:
+            pass
     # tally refusals per option for the evidence
     if res["stats"].get("refusals"):
         key = ",".join(sorted(k for k, v in cfg["settings"].items() if v)) or "default"
